@@ -12,6 +12,11 @@ import time
 from typing import Any, Dict, List
 
 VERIF = os.path.dirname(os.path.dirname(os.path.abspath(__file__)))
+# Evidence and replays describe /repo. A run against any other tree (XSV_REPO=<scratch copy>, used to
+# evaluate seeded changes) writes them under .scratch/ instead, so committed evidence never comes
+# from a modified tree.
+_OTHER_TREE = os.path.realpath(os.environ.get("XSV_REPO", "/repo/src")) != os.path.realpath("/repo/src")
+OUT = os.path.join(VERIF, ".scratch") if _OTHER_TREE else VERIF
 PY = "/venv/bin/python"
 MAX_PROCS = int(os.environ.get("XSV_PROCS", "16"))
 
@@ -107,7 +112,7 @@ def aggregate(prop, tier: str, seed: int, results: List[Dict[str, Any]], wall: f
         by_key.setdefault(v["key"], []).append(v)
     new_keys = [k for k in by_key if k not in known]
     lines: List[str] = []
-    os.makedirs(os.path.join(VERIF, "replays"), exist_ok=True)
+    os.makedirs(os.path.join(OUT, "replays"), exist_ok=True)
     for k in sorted(by_key):
         if k in known:
             lines.append("KNOWN-FINDING: property=%s %s [%s; %d hit(s) this run]" % (
@@ -115,7 +120,7 @@ def aggregate(prop, tier: str, seed: int, results: List[Dict[str, Any]], wall: f
     for i, k in enumerate(sorted(new_keys)):
         w = by_key[k][0]
         safe = "".join(c if c.isalnum() or c in "-_." else "_" for c in k)[:80]
-        path = os.path.join(VERIF, "replays", f"{pid}-{safe}.json")
+        path = os.path.join(OUT, "replays", f"{pid}-{safe}.json")
         with open(path, "w") as f:
             json.dump({"property": pid, "key": k, "what": w.get("what"),
                        "witness": w.get("witness"), "spec": w.get("spec"),
@@ -147,8 +152,8 @@ def aggregate(prop, tier: str, seed: int, results: List[Dict[str, Any]], wall: f
         "wall_s": round(wall, 2),
         "violations": len(new_keys),
     }
-    os.makedirs(os.path.join(VERIF, "evidence"), exist_ok=True)
-    with open(os.path.join(VERIF, "evidence", f"{pid}.json"), "w") as f:
+    os.makedirs(os.path.join(OUT, "evidence"), exist_ok=True)
+    with open(os.path.join(OUT, "evidence", f"{pid}.json"), "w") as f:
         json.dump(ev, f, indent=1, default=str)
     return verdict, lines, ev
 
